@@ -171,3 +171,81 @@ func ReadFrame(c io.Reader) ([]byte, error) {
 	}
 	return p, nil
 }
+
+// PacketConn is an in-memory datagram socket for a server under test: Deliver hands it a datagram
+// "from" an address, everything the server writes appears on Out.
+type PacketConn struct {
+	in     chan dgram
+	Out    chan []byte
+	mu     sync.Mutex
+	dl     time.Time
+	wake   chan struct{}
+	closed chan struct{}
+	once   sync.Once
+}
+
+type dgram struct {
+	p    []byte
+	from net.Addr
+}
+
+func NewPacketConn() *PacketConn {
+	return &PacketConn{in: make(chan dgram, 64), Out: make(chan []byte, 1024), wake: make(chan struct{}), closed: make(chan struct{})}
+}
+
+// Deliver queues one inbound datagram.
+func (c *PacketConn) Deliver(p []byte) {
+	c.in <- dgram{append([]byte(nil), p...), addr{}}
+}
+
+func (c *PacketConn) ReadFrom(p []byte) (int, net.Addr, error) {
+	for {
+		c.mu.Lock()
+		dl, wake := c.dl, c.wake
+		c.mu.Unlock()
+		var timer <-chan time.Time
+		if !dl.IsZero() {
+			d := time.Until(dl)
+			if d <= 0 {
+				return 0, nil, os.ErrDeadlineExceeded
+			}
+			timer = time.After(d)
+		}
+		select {
+		case d := <-c.in:
+			return copy(p, d.p), d.from, nil
+		case <-c.closed:
+			return 0, nil, net.ErrClosed
+		case <-timer:
+			return 0, nil, os.ErrDeadlineExceeded
+		case <-wake: // the deadline changed
+		}
+	}
+}
+
+func (c *PacketConn) WriteTo(p []byte, a net.Addr) (int, error) {
+	select {
+	case <-c.closed:
+		return 0, net.ErrClosed
+	case c.Out <- append([]byte(nil), p...):
+		return len(p), nil
+	}
+}
+
+func (c *PacketConn) Close() error {
+	c.once.Do(func() { close(c.closed) })
+	return nil
+}
+
+func (c *PacketConn) LocalAddr() net.Addr { return addr{} }
+
+func (c *PacketConn) SetReadDeadline(t time.Time) error {
+	c.mu.Lock()
+	c.dl = t
+	close(c.wake)
+	c.wake = make(chan struct{})
+	c.mu.Unlock()
+	return nil
+}
+func (c *PacketConn) SetDeadline(t time.Time) error      { return c.SetReadDeadline(t) }
+func (c *PacketConn) SetWriteDeadline(t time.Time) error { return nil }
